@@ -57,6 +57,20 @@ fn dispatch(f: &[&str]) -> String {
             let doc = format!("{{\"v\": {}}}", String::from_utf8(bytes).unwrap());
             match serde_json::from_str::<JsonOpt>(&doc) { Ok(d) => d.v.map(|v| f_dec(&v)).unwrap_or("None".to_string()), Err(e) => format!("ERR {}", e) }
         }
+        // tokens handed over by a non-JSON format: serde's own value deserializers drive the visitor
+        "de_token" => {
+            use serde::de::value::{Error as VErr, F32Deserializer, F64Deserializer, I128Deserializer, I64Deserializer, U128Deserializer, U64Deserializer};
+            let r: Result<BigDecimal, VErr> = match f[2] {
+                "f64" => BigDecimal::deserialize(F64Deserializer::<VErr>::new(f64::from_bits(u64::from_str_radix(f[3].trim_start_matches("0x"), 16).unwrap()))),
+                "f32" => BigDecimal::deserialize(F32Deserializer::<VErr>::new(f32::from_bits(u32::from_str_radix(f[3].trim_start_matches("0x"), 16).unwrap()))),
+                "i64" => BigDecimal::deserialize(I64Deserializer::<VErr>::new(f[3].parse().unwrap())),
+                "u64" => BigDecimal::deserialize(U64Deserializer::<VErr>::new(f[3].parse().unwrap())),
+                "i128" => BigDecimal::deserialize(I128Deserializer::<VErr>::new(f[3].parse().unwrap())),
+                "u128" => BigDecimal::deserialize(U128Deserializer::<VErr>::new(f[3].parse().unwrap())),
+                _ => return "UNKNOWN-TOKEN".to_string(),
+            };
+            match r { Ok(d) => f_dec(&d), Err(e) => format!("ERR {}", e) }
+        }
         _ => "UNKNOWN-SERDE".to_string(),
     }
 }
